@@ -55,8 +55,49 @@ def envname(t):
     return f"{t.opt_type}|months{t.mc}|{d}"
 
 
+def lp_language_traps(index, rep):
+    """rows of the programme are written with overloaded comparisons: a chained comparison `a <= x <= b` (Python: `(a <= x) and (x <= b)`) or
+    `and` / `or` / `not` over comparisons of LP expressions cannot be overloaded - only the last comparison becomes a row, the others vanish"""
+    rule = "C01.ORDER"
+    cls = index.cls(OPT, "Optimizer")
+    n = 0
+    for fn in [m for m in cls.body if isinstance(m, ast.FunctionDef)]:
+        lp_names = {"variables"}
+        for _ in range(3):
+            for st in walk_no_nested(fn):
+                if isinstance(st, ast.Assign) and any(isinstance(x, ast.Name) and x.id in lp_names for x in ast.walk(st.value)):
+                    for t in st.targets:
+                        for x in ast.walk(t):
+                            if isinstance(x, ast.Name):
+                                lp_names.add(x.id)
+
+        def lp_valued(e):
+            return any(isinstance(x, ast.Name) and x.id in lp_names for x in ast.walk(e))
+
+        for node in walk_no_nested(fn):
+            bad = None
+            if isinstance(node, ast.Compare) and len(node.ops) > 1 and all(isinstance(o, (ast.Lt, ast.LtE, ast.Gt, ast.GtE, ast.Eq)) for o in node.ops) \
+                    and lp_valued(node) and not isinstance(getattr(node, "_parent", None), (ast.If, ast.Assert, ast.While, ast.IfExp)):
+                bad = "a chained comparison"
+            if isinstance(node, ast.BoolOp) and any(isinstance(v, ast.Compare) and lp_valued(v) and all(
+                    isinstance(o, (ast.Lt, ast.LtE, ast.Gt, ast.GtE)) for o in v.ops) for v in node.values) \
+                    and not isinstance(getattr(node, "_parent", None), (ast.If, ast.Assert, ast.While, ast.IfExp)) and any(
+                        isinstance(x, ast.Subscript) and isinstance(x.value, ast.Name) and x.value.id == "variables" for x in ast.walk(node)):
+                bad = "`and`/`or`"
+            if bad:
+                n += 1
+                rep.violation(rule, f"lp-row-built-with-{'chain' if 'chained' in bad else 'boolean'}:{fn.name}:{norm_src(node)[:60]}",
+                              f"{bad} over LP expressions builds one row only (Python evaluates it with `and`, which PuLP cannot overload): the other "
+                              "bound silently disappears from the programme", loc=loc(OPT, node))
+    if n == 0:
+        rep.ok(rule, "no LP row is written as a chained comparison or a boolean combination of comparisons")
+
+
 def run(index, rep, db=None):
-    db = db or build_all(index)
+    rep.guard(lp_language_traps, index, rep)
+    db = db or rep.guard(build_all, index)
+    if db is None:
+        return None
     rep.note_analysed("optimizer_templates", len(db.templates))
     rep.note_analysed("abstract_environments", db.n_envs)
     rep.note_analysed("resources", {k: v["function"] for k, v in db.resources.items()})
